@@ -198,6 +198,31 @@ InheritsIdx == { <<f, d, e, t>> : f \in {"null", "no"}, d \in {"null", "no"}, e 
 InheritsLoops == LET I == SetToSeq(InheritsIdx) IN
     [j \in DOMAIN I |-> Multi("inherits-loop", "any", <<"en", "fr", "de", "es">>, << DefA, AOf(I[j][1]), AOf(I[j][2]), AOf(I[j][3]) >>, InhTables[I[j][4]])]
 
+\* ---- namespaces, adversarially: two locales x two namespaces; one of the four files is of an odd kind (missing, empty map, a
+\* sequence, a string, null, a number), and references across namespaces (known / unknown namespace, missing key, cycle across
+\* namespaces, a reference without namespace inside a namespaced project)
+NsFileKinds == << "normal", "missing", "emptymap", "seq", "str", "null", "num" >>
+NsNormal(l, n) == MapNode(<< E("k", S(<<"x">>)), E("r", S(Fk(<<"b", "COLON", "k">>))) >>)
+NsFile(kind, l, n) == CASE kind = "emptymap" -> MapNode(<<>>) [] kind = "seq" -> SeqNode(<< S(<<"x">>) >>) [] kind = "str" -> S(<<"x">>)
+                        [] kind = "null" -> Raw("null") [] kind = "num" -> Raw("5") [] OTHER -> NsNormal(l, n)
+NsSlots == << <<"en", "a">>, <<"en", "b">>, <<"fr", "a">>, <<"fr", "b">> >>
+NsAdvCase(slot, kind) ==
+    [family |-> "robust", abs |-> [name |-> "ns-adv", class |-> "any"],
+     cfg |-> [default |-> "en", locales |-> <<"en", "fr">>, namespaces |-> <<"a", "b">>],
+     files |-> LET keep == SelectSeq(NsSlots, LAMBDA sl : ~(sl = NsSlots[slot] /\ kind = "missing")) IN
+               [i \in DOMAIN keep |-> <<keep[i][1] \o "/" \o keep[i][2],
+                                          IF keep[i] = NsSlots[slot] THEN NsFile(kind, keep[i][1], keep[i][2]) ELSE NsNormal(keep[i][1], keep[i][2])>>]]
+NsRefTargets == << <<"b", "COLON", "k">>, <<"z", "COLON", "k">>, <<"b", "COLON", "z">>, <<"a", "COLON", "r">>, <<"k">>, <<"COLON", "k">>, <<"b", "COLON">>,
+                  <<"b", "COLON", "k", "COLON", "k">>, <<"a", "DOT", "k">> >>
+NsRefCase(t) ==
+    [family |-> "robust", abs |-> [name |-> "ns-adv", class |-> "any"],
+     cfg |-> [default |-> "en", locales |-> <<"en">>, namespaces |-> <<"a", "b">>],
+     files |-> << <<"en/a", MapNode(<< E("k", S(<<"x">>)), E("r", S(Fk(NsRefTargets[t]))) >>)>>,
+                  <<"en/b", MapNode(<< E("k", S(Fk(<<"a", "COLON", "k">>))), E("q", S(Fk(<<"a", "COLON", "r">>))) >>)>> >>]
+NamespaceAdversarial ==
+    LET I == SetToSeq({ <<sl, k>> : sl \in DOMAIN NsSlots, k \in DOMAIN NsFileKinds }) IN
+    [j \in DOMAIN I |-> NsAdvCase(I[j][1], NsFileKinds[I[j][2]])] \o [t \in DOMAIN NsRefTargets |-> NsRefCase(t)]
+
 \* ---- formatters, adversarially: every formatter name (plus an unknown one and none) x argument texts that are unbalanced, empty,
 \* repeated, non-ASCII, too long - on a plain variable, on a plural count and inside a range branch
 FmtNames == << <<"n","u","m","b","e","r">>, <<"d","a","t","e">>, <<"t","i","m","e">>, <<"d","a","t","e","t","i","m","e">>, <<"l","i","s","t">>,
